@@ -1,6 +1,7 @@
 """C20 - the chain-sync client keeps listeners on one consistent chain at the best tip (structural part)."""
 from engine import *
 import provenance
+import guards
 import mutations
 
 BS = 'lightning_block_sync::'
@@ -662,3 +663,4 @@ RULES = [
 ]
 RULES.append(('20.t', 'identity comparisons: every reviewed (function, identity type) == / != comparison (HTLCSource, Txid, OutPoint, ChannelId, PaymentHash, PublicKey, ...) is still made - a function does not silently change what it matches by (rules/provenance.py)', lambda F: provenance.ids_for_property(F, 'C20', '20.t')))
 RULES.append(('20.M', 'collection mutations: every reviewed (function, stored collection, mutator class: add / remove / filter / empty / swap / order) triple is still present - an entry that is no longer removed, inserted or drained on one path (rules/mutations.py)', lambda F: mutations.for_property(F, 'C20', '20.M')))
+RULES.append(('20.G', 'guard census: no reviewed call of a workspace function and no reviewed mutation of a stored collection gained a controlling branch condition (an added `&& cond`, early return / continue, more specific match arm in front of an act); counts per call site, name free (rules/guards.py)', lambda F: guards.for_property(F, 'C20', '20.G')))
